@@ -21,7 +21,8 @@ EXTENDS Naturals, Sequences, FiniteSets, TLC, Json
 Pres == {"bol", "space", "lparen", "lbracket", "lbrace", "comma", "equals", "plus", "colon", "dot", "semicolon", "star", "at", "minus", "not"}
 Fols == {"eol", "space", "ident", "rparen", "comma", "dot"}
 Ctxs == {"code", "call", "subscript", "dict", "slice", "annotation", "kwarg", "string", "comment", "attrstore", "import", "fromimport", "fstring",
-         "pkgattr"}     \* an attribute of a package after `import a.b.c` (three levels)
+         "pkgattr",     \* an attribute of a package after `import a.b.c` (three levels)
+         "fromline"}    \* a name on a continuation line that starts with the keyword from (raise X \ from y; yield from)
 Abcs == {"ascii", "under9", "nonascii"}
 Contexts == [pre : Pres, run : 0..3, abc : Abcs, fol : Fols, ctx : Ctxs]
 
